@@ -14,6 +14,7 @@ import (
 	"fmt"
 	"math/rand"
 	"sort"
+	"sync"
 	"testing"
 
 	"verifharness/kit"
@@ -192,123 +193,25 @@ func TestC26(t *testing.T) {
 	defer r.Finish()
 	r.Rule("UTXO sets of 1-40 outputs (6 value shapes, p2sh / p2wsh mix, occasional same-txid outputs) x fee rate x min-change x sequences of 1-15 withdrawals through the real chooseUtxos / makeBtcTx; distinct = (set size, value shape hash, amount bucket, outcome, #selected)")
 	r.Assume("BtcTxParam is written through a verif export instead of the m-of-n signed SetBtcTxParam call; UTXO records are written through the real putUtxos")
-	rng := r.Rand("sel")
 	nSeq := r.N(30, 2500)
-	env := newEnv(t, rng)
-	txc := 0
-	for s := 0; s < nSeq; s++ {
-		n := 1 + rng.Intn(40)
-		if rng.Intn(4) == 0 {
-			n = 1 + rng.Intn(5)
-		}
-		vals := genValues(rng, n)
-		model := make([]mUtxo, n)
-		var recs []*btc.Utxo
-		for i := range model {
-			txc++
-			h := sha256.Sum256([]byte(fmt.Sprintf("tx-%d-%d", r.Seed, txc)))
-			idx := uint32(0)
-			if i > 0 && rng.Intn(25) == 0 {
-				// a second output of the previous transaction (change-to-self shape)
-				hh, _ := hex.DecodeString(model[i-1].Hash)
-				copy(h[:], hh)
-				idx = model[i-1].Index + 1
+	workers := 12
+	var wg sync.WaitGroup
+	jobs := make(chan int)
+	for w := 0; w < workers; w++ {
+		wg.Add(1)
+		go func(w int) {
+			defer wg.Done()
+			env := newEnv(t, r.Rand(fmt.Sprintf("env/%d", w)))
+			for s := range jobs {
+				runSeq(t, r, env, s)
 			}
-			wit := rng.Intn(2) == 0
-			model[i] = mUtxo{Hash: hex.EncodeToString(h[:]), Index: idx, Value: vals[i], Wit: wit}
-			spk := env.p2sh
-			if wit {
-				spk = env.p2wsh
-			}
-			recs = append(recs, &btc.Utxo{Op: &btc.OutPoint{Hash: append([]byte{}, h[:]...), Index: idx}, AtHeight: 1, Value: vals[i], ScriptPubkey: spk})
-		}
-		feeRate := uint64(1 + rng.Intn(60))
-		minChange := uint64(2000 + rng.Intn(20000))
-		// install the records (fresh sets for this sequence)
-		svc := env.e.Service()
-		btc.VerifPutUtxos(svc, btcChainID, hex.EncodeToString(env.rk), &btc.Utxos{Utxos: recs})
-		// spent set starts empty for this sequence: overwrite through the same storage helper is
-		// not exported, so keep a model offset of what was there before
-		side_chain_manager.VerifPutBtcTxParam(svc, env.rk, btcChainID, &side_chain_manager.BtcTxParamDetial{PVersion: uint64(s), FeeRate: feeRate, MinChange: minChange})
-		commit(svc)
-		st0, _ := btc.VerifGetStxos(env.e.Service(), btcChainID, hex.EncodeToString(env.rk))
-		spentBase := multiset(st0.Utxos)
-		var spent []mUtxo
-		steps := 1 + rng.Intn(15)
-		for step := 0; step < steps && len(model) > 0; step++ {
-			var total uint64
-			for _, u := range model {
-				total += u.Value
-			}
-			var amount int64
-			switch rng.Intn(5) {
-			case 0:
-				amount = int64(model[rng.Intn(len(model))].Value) // exact match of one output possible
-			case 1:
-				amount = int64(total/2 + uint64(rng.Int63n(int64(total/2+1))))
-			case 2:
-				amount = int64(1000 + rng.Int63n(int64(total/4+1)))
-			case 3:
-				amount = int64(total) - int64(rng.Intn(3000))
-			default:
-				amount = int64(1000 + rng.Int63n(int64(total+1)))
-			}
-			if amount <= 0 {
-				amount = 1000
-			}
-			path := "chooseUtxos"
-			if rng.Intn(4) == 0 {
-				path = "makeBtcTx"
-			}
-			c := selCase{Utxos: append([]mUtxo{}, model...), Amount: amount, FeeRate: feeRate, MinChange: minChange, Step: step, Path: path}
-			r.Eval(1)
-			ok, chosen, sum := runSelection(t, r, env, c)
-			if !ok {
-				r.Count("refused", 1)
-				r.Distinct(len(c.Utxos), bucket(uint64(amount), total), "refused", path)
-				continue
-			}
-			r.Count("selected", 1)
-			r.Count("selected_via_"+path, 1)
-			r.Distinct(len(c.Utxos), bucket(uint64(amount), total), "ok", len(chosen), sum == uint64(amount), path)
-			if s < 3 && step == 0 {
-				r.Sample(map[string]interface{}{"case": c, "selected": chosen, "reported_sum": sum})
-			}
-			// update the model
-			cm := map[string]bool{}
-			for _, op := range chosen {
-				cm[op] = true
-			}
-			var rest []mUtxo
-			for _, u := range model {
-				if cm[u.op()] {
-					spent = append(spent, u)
-				} else {
-					rest = append(rest, u)
-				}
-			}
-			model = rest
-			// compare persisted sets with the model
-			ut, err1 := btc.VerifGetUtxos(env.e.Service(), btcChainID, hex.EncodeToString(env.rk))
-			sx, err2 := btc.VerifGetStxos(env.e.Service(), btcChainID, hex.EncodeToString(env.rk))
-			if err1 != nil || err2 != nil {
-				r.Violation("records-unreadable", fmt.Sprintf("%v %v", err1, err2), c)
-				break
-			}
-			if !eqSet(multiset(ut.Utxos), modelSet(model)) {
-				r.Violation("unspent-set-not-old-minus-selected", fmt.Sprintf("unspent set after selection has %d entries, model %d", len(ut.Utxos), len(model)), c)
-				break
-			}
-			want := modelSet(spent)
-			for k, v := range spentBase {
-				want[k] += v
-			}
-			if !eqSet(multiset(sx.Utxos), want) {
-				r.Violation("spent-set-not-old-plus-selected", fmt.Sprintf("spent set has %d entries, model %d", len(sx.Utxos), len(spent)+len(st0.Utxos)), c)
-				break
-			}
-		}
+		}(w)
 	}
+	for s := 0; s < nSeq; s++ {
+		jobs <- s
+	}
+	close(jobs)
+	wg.Wait()
 	r.Require("selected", nSeq/2)
 	r.Require("refused", 1)
 	r.Require("selected_via_makeBtcTx", nSeq/20)
@@ -434,4 +337,121 @@ func runSelection(t *testing.T, r *kit.Run, env *env, c selCase) (bool, []string
 	_ = fee
 	sort.Strings(chosen)
 	return true, chosen, uint64(sum)
+}
+
+// runSeq: one UTXO set and a sequence of withdrawals on it (deterministic in (seed, s)).
+func runSeq(t *testing.T, r *kit.Run, env *env, s int) {
+	rng := r.Rand(fmt.Sprintf("seq/%d", s))
+	txc := 0
+	n := 1 + rng.Intn(40)
+	if rng.Intn(4) == 0 {
+		n = 1 + rng.Intn(5)
+	}
+	vals := genValues(rng, n)
+	model := make([]mUtxo, n)
+	var recs []*btc.Utxo
+	for i := range model {
+		txc++
+		h := sha256.Sum256([]byte(fmt.Sprintf("tx-%d-%d-%d", r.Seed, s, txc)))
+		idx := uint32(0)
+		if i > 0 && rng.Intn(25) == 0 {
+			// a second output of the previous transaction (change-to-self shape)
+			hh, _ := hex.DecodeString(model[i-1].Hash)
+			copy(h[:], hh)
+			idx = model[i-1].Index + 1
+		}
+		wit := rng.Intn(2) == 0
+		model[i] = mUtxo{Hash: hex.EncodeToString(h[:]), Index: idx, Value: vals[i], Wit: wit}
+		spk := env.p2sh
+		if wit {
+			spk = env.p2wsh
+		}
+		recs = append(recs, &btc.Utxo{Op: &btc.OutPoint{Hash: append([]byte{}, h[:]...), Index: idx}, AtHeight: 1, Value: vals[i], ScriptPubkey: spk})
+	}
+	feeRate := uint64(1 + rng.Intn(60))
+	minChange := uint64(2000 + rng.Intn(20000))
+	// install the records (fresh sets for this sequence)
+	svc := env.e.Service()
+	btc.VerifPutUtxos(svc, btcChainID, hex.EncodeToString(env.rk), &btc.Utxos{Utxos: recs})
+	// spent set starts empty for this sequence: overwrite through the same storage helper is
+	// not exported, so keep a model offset of what was there before
+	side_chain_manager.VerifPutBtcTxParam(svc, env.rk, btcChainID, &side_chain_manager.BtcTxParamDetial{PVersion: uint64(s), FeeRate: feeRate, MinChange: minChange})
+	commit(svc)
+	st0, _ := btc.VerifGetStxos(env.e.Service(), btcChainID, hex.EncodeToString(env.rk))
+	spentBase := multiset(st0.Utxos)
+	var spent []mUtxo
+	steps := 1 + rng.Intn(15)
+	for step := 0; step < steps && len(model) > 0; step++ {
+		var total uint64
+		for _, u := range model {
+			total += u.Value
+		}
+		var amount int64
+		switch rng.Intn(5) {
+		case 0:
+			amount = int64(model[rng.Intn(len(model))].Value) // exact match of one output possible
+		case 1:
+			amount = int64(total/2 + uint64(rng.Int63n(int64(total/2+1))))
+		case 2:
+			amount = int64(1000 + rng.Int63n(int64(total/4+1)))
+		case 3:
+			amount = int64(total) - int64(rng.Intn(3000))
+		default:
+			amount = int64(1000 + rng.Int63n(int64(total+1)))
+		}
+		if amount <= 0 {
+			amount = 1000
+		}
+		path := "chooseUtxos"
+		if rng.Intn(4) == 0 {
+			path = "makeBtcTx"
+		}
+		c := selCase{Utxos: append([]mUtxo{}, model...), Amount: amount, FeeRate: feeRate, MinChange: minChange, Step: step, Path: path}
+		r.Eval(1)
+		ok, chosen, sum := runSelection(t, r, env, c)
+		if !ok {
+			r.Count("refused", 1)
+			r.Distinct(len(c.Utxos), bucket(uint64(amount), total), "refused", path)
+			continue
+		}
+		r.Count("selected", 1)
+		r.Count("selected_via_"+path, 1)
+		r.Distinct(len(c.Utxos), bucket(uint64(amount), total), "ok", len(chosen), sum == uint64(amount), path)
+		if s < 3 && step == 0 {
+			r.Sample(map[string]interface{}{"case": c, "selected": chosen, "reported_sum": sum})
+		}
+		// update the model
+		cm := map[string]bool{}
+		for _, op := range chosen {
+			cm[op] = true
+		}
+		var rest []mUtxo
+		for _, u := range model {
+			if cm[u.op()] {
+				spent = append(spent, u)
+			} else {
+				rest = append(rest, u)
+			}
+		}
+		model = rest
+		// compare persisted sets with the model
+		ut, err1 := btc.VerifGetUtxos(env.e.Service(), btcChainID, hex.EncodeToString(env.rk))
+		sx, err2 := btc.VerifGetStxos(env.e.Service(), btcChainID, hex.EncodeToString(env.rk))
+		if err1 != nil || err2 != nil {
+			r.Violation("records-unreadable", fmt.Sprintf("%v %v", err1, err2), c)
+			break
+		}
+		if !eqSet(multiset(ut.Utxos), modelSet(model)) {
+			r.Violation("unspent-set-not-old-minus-selected", fmt.Sprintf("unspent set after selection has %d entries, model %d", len(ut.Utxos), len(model)), c)
+			break
+		}
+		want := modelSet(spent)
+		for k, v := range spentBase {
+			want[k] += v
+		}
+		if !eqSet(multiset(sx.Utxos), want) {
+			r.Violation("spent-set-not-old-plus-selected", fmt.Sprintf("spent set has %d entries, model %d", len(sx.Utxos), len(spent)+len(st0.Utxos)), c)
+			break
+		}
+	}
 }
